@@ -171,14 +171,16 @@ def angleToSU2 (half : α) (a b g : α) : Mat2 (Cx α) :=
   angleToSU2cs (cos (half * b)) (sin (half * b))
     ⟨cos (half * (a + g)), sin (half * (a + g))⟩ ⟨cos (half * (a - g)), sin (half * (a - g))⟩
 
-/-- `su2_to_angle` (`_lie.py:125-145`): extraction on the real parts of the seven entries, then the
-4π branch of γ: `γ += 2π` when `Re(exp(i(α+γ)/2)·a) < 0`. -/
+/-- `su2_to_angle` (`_lie.py:125-147`): extraction on the real parts of the seven entries, then the
+4π branch of γ: `γ += 2π` when `Re(exp(i(α+γ)/2)·a − exp(i(α−γ)/2)·b) < 0`
+(for `U = angle_to_su2 α β γ'` with `γ' ≡ γ mod 2π` this real part is `±(cos(β/2) + sin(β/2))`, `|·| ≥ 1`). -/
 def su2ToAngle (half : α) (a b : Cx α) (eps : α) : α × α × α :=
   match (su2Entries7 half a b).map Cx.re with
   | [x00, x10, x02, x12, x20, x21, x22] =>
     let (al, be, ga) := so3ToAngleHf0 half x00 x10 x02 x12 x20 x21 x22 eps
-    let e : Cx α := ⟨cos (half * (al + ga)), sin (half * (al + ga))⟩
-    if (e * a).re < 0 then (al, be, ga + (pi + pi)) else (al, be, ga)
+    let e1 : Cx α := ⟨cos (half * (al + ga)), sin (half * (al + ga))⟩
+    let e2 : Cx α := ⟨cos (half * (al - ga)), sin (half * (al - ga))⟩
+    if (e1 * a - e2 * b).re < 0 then (al, be, ga + (pi + pi)) else (al, be, ga)
   | _ => (0, 0, 0)
 
 /-- `so3_to_su2` = `angle_to_su2 ∘ so3_to_angle` (`_lie.py:163-164`). -/
